@@ -68,6 +68,9 @@ def r2(db, rep):
                                "the reply's swapped field bits) and false as soon as any one of those bits differs (bit provenance, both "
                                "byte orders of storage included)", 3)
     r5(db, rep)
+    rep.rule("R6-header-only-reply", "a reply that consists of exactly the layer's header is not rejected by the size test: the smallest accepted "
+                                     "length equals the size of the header structure the function overlays on the buffer", 10)
+    r6(db, rep)
     from vlib import formula
     fs = db.fns_named("Tins::IP::matches_response")
     if not fs:
@@ -397,3 +400,58 @@ def r5(db, rep):
             rep.violation("R5-mirror-bits", key, site, bad)
         else:
             rep.ok("R5-mirror-bits", key, site, "%s: %d bit pairs, mirrored header accepted, every single-bit difference rejected" % (names, len(pairing)))
+
+
+def r6(db, rep):
+    from vlib.facts import strip
+    n = 0
+    for f in sorted(targets(db), key=lambda x: x["id"]):
+        if not f.get("body") or len(f["params"]) != 2 or f["name"] != "matches_response" or (f.get("rec") or "").startswith("Tins::PDUCacher<"):
+            continue
+        szv = f["params"][1]["var"]
+        ptrv = f["params"][0]["var"]
+        top = f["body"].get("c", [])
+        guard = None
+        for st in top:
+            if st["k"] != "IfStmt":
+                if st["k"] in ("DeclStmt",):
+                    continue
+                break
+            real = [x for x in st["c"] if x is not None]
+            c = strip(real[0])
+            while c["k"] == "CallExpr" and c.get("cname") == "__builtin_expect":
+                c = strip(c["c"][1])
+            if c["k"] == "BinaryOperator" and c.get("op") in ("<", "<=", ">", ">="):
+                l, r = facts.strip_all(c["c"][0]), facts.strip_all(c["c"][1])
+                lv, rv = facts.cval(c["c"][0]), facts.cval(c["c"][1])
+                rets_false = any(x["k"] == "ReturnStmt" and x.get("c") and facts.cval(x["c"][0]) == 0 for x in facts.walk(real[1]))
+                if not rets_false:
+                    break
+                if l.get("var") == szv and rv is not None:
+                    guard = (st, {"<": int(rv), "<=": int(rv) + 1}.get(c["op"]))
+                elif r.get("var") == szv and lv is not None:
+                    guard = (st, {">": int(lv), ">=": int(lv) + 1}.get(c["op"]))
+            break
+        if guard is None or guard[1] is None:
+            continue
+        # the structure overlaid on the buffer
+        S = None
+        for x in facts.fn_nodes(f):
+            if x["k"] in ("CStyleCastExpr", "CXXReinterpretCastExpr", "CXXStaticCastExpr"):
+                t = facts.ty(f, x) or {}
+                if t.get("k") == "ptr" and (t.get("to") or {}).get("k") == "rec" and \
+                        any(y["k"] == "DeclRefExpr" and y.get("var") == ptrv for y in facts.walk(x)):
+                    S = (t["to"].get("size") or (db.records.get(t["to"].get("name")) or {}).get("size"))
+                    break
+        if not S:
+            continue
+        n += 1
+        key = "%s:size-test" % f["qual"].replace("Tins::", "")
+        if guard[1] <= S:
+            rep.ok("R6-header-only-reply", key, facts.loc(f, guard[0]), "accepts replies of %d bytes and more; the overlaid header has %d" % (guard[1], S))
+        else:
+            rep.violation("R6-header-only-reply", key, facts.loc(f, guard[0]),
+                          "the size test rejects replies shorter than %d bytes, but the header it overlays has %d: a reply that is exactly its "
+                          "header (a bare TCP SYN/ACK, an ICMP echo reply without data ...) is never recognised" % (guard[1], S))
+    if n < 10:
+        rep.analysis_broken("only %d matches_response size tests with an overlaid header found" % n)
